@@ -28,7 +28,8 @@ import (
 )
 
 type Op struct {
-	Kind   string `json:"kind"`   // "append" | "clone"
+	Kind   string `json:"kind"`   // "append" | "clone" | "doclone" (Clone of the callback parameter inside Do, with appends before and after it in the callback) | "addstmt" (Add of another live statement, Arg)
+	Arg    int    `json:"arg,omitempty"`
 	Target int    `json:"target"` // index into the list of live statements (taken modulo its length)
 	Via    string `json:"via,omitempty"`
 	N      int    `json:"n,omitempty"` // number of items for via=add
@@ -48,8 +49,16 @@ func genCase(maxOps int) func(t *rapid.T) Case {
 		live := 1
 		for i := 0; i < n; i++ {
 			if rapid.IntRange(0, 3).Draw(t, "isclone") == 0 {
-				c.Ops = append(c.Ops, Op{Kind: "clone", Target: rapid.IntRange(0, live-1).Draw(t, "target")})
+				kind := "clone"
+				if rapid.IntRange(0, 4).Draw(t, "indo") == 0 {
+					kind = "doclone"
+				}
+				c.Ops = append(c.Ops, Op{Kind: kind, Target: rapid.IntRange(0, live-1).Draw(t, "target"), N: rapid.IntRange(0, 2).Draw(t, "docall")})
 				live++
+				continue
+			}
+			if live > 1 && rapid.IntRange(0, 7).Draw(t, "addstmt") == 0 {
+				c.Ops = append(c.Ops, Op{Kind: "addstmt", Target: rapid.IntRange(0, live-1).Draw(t, "target"), Arg: rapid.IntRange(0, live-1).Draw(t, "arg")})
 				continue
 			}
 			op := Op{Kind: "append", Target: rapid.IntRange(0, live-1).Draw(t, "target"), Via: rapid.SampledFrom(vias).Draw(t, "via")}
@@ -65,8 +74,8 @@ func genCase(maxOps int) func(t *rapid.T) Case {
 type st struct {
 	s      *jen.Statement
 	parent int      // -1 for the original
-	snap   []string // snapshot model: tokens of the parent at clone time
-	own    []string // tokens appended to this statement itself
+	snap   []string // snapshot model: content of the parent at clone time (references unexpanded)
+	own    []string // tokens appended to this statement itself; "\x00<j>" stands for statement j added with Add
 }
 
 func render(s *jen.Statement) ([]string, error) {
@@ -189,20 +198,73 @@ func check(c Case) error {
 	for i := 0; i < c.Init; i++ {
 		list[0].own = append(list[0].own, apply(orig, "id", 0)...)
 	}
-	var live func(i int) []string
-	live = func(i int) []string {
+	// the two models give a statement's content with references to other statements unexpanded
+	var liveU func(i int) []string
+	liveU = func(i int) []string {
 		x := list[i]
 		if x.parent < 0 {
 			return append([]string{}, x.own...)
 		}
-		return append(live(x.parent), x.own...)
+		return append(liveU(x.parent), x.own...)
 	}
-	snapshot := func(i int) []string {
+	snapU := func(i int) []string {
 		x := list[i]
 		if x.parent < 0 {
 			return append([]string{}, x.own...)
 		}
 		return append(append([]string{}, x.snap...), x.own...)
+	}
+	// a reference renders as whatever the referenced statement renders now (observed in the same pass
+	// and itself judged against its own models)
+	expand := func(content []string, cur [][]string) string {
+		var out []string
+		for _, t := range content {
+			if strings.HasPrefix(t, "\x00") {
+				j := 0
+				fmt.Sscanf(t[1:], "%d", &j)
+				out = append(out, cur[j]...)
+				continue
+			}
+			out = append(out, t)
+		}
+		return strings.Join(out, " ")
+	}
+	// deps: the statements whose content shows in statement j (itself, what it views, what it holds)
+	var deps func(j int, seen map[int]bool)
+	deps = func(j int, seen map[int]bool) {
+		if seen[j] {
+			return
+		}
+		seen[j] = true
+		if list[j].parent >= 0 {
+			deps(list[j].parent, seen)
+		}
+		for _, t := range append(append([]string{}, list[j].snap...), list[j].own...) {
+			if strings.HasPrefix(t, "\x00") {
+				k := 0
+				fmt.Sscanf(t[1:], "%d", &k)
+				deps(k, seen)
+			}
+		}
+	}
+	// Clone may give a live view of the original or a snapshot of it; whichever it is, it is the same
+	// for every clone of the history
+	liveOK, snapOK := true, true
+	judge := func(step int, what, where string, i int, g string, cur [][]string) error {
+		l, sn := expand(liveU(i), cur), expand(snapU(i), cur)
+		if g != l && g != sn {
+			return fmt.Errorf("step %d (%s): %s statement %d (parent %d) renders %q; want %q (clone is a view of its original) or %q (clone is a snapshot)", step, what, where, i, list[i].parent, g, l, sn)
+		}
+		if g != l {
+			liveOK = false
+		}
+		if g != sn {
+			snapOK = false
+		}
+		if !liveOK && !snapOK {
+			return fmt.Errorf("step %d (%s): %s statement %d (parent %d) renders %q, which is %q as a view of its original and %q as a snapshot — but earlier in this history another clone behaved the other way: Clone has no consistent meaning", step, what, where, i, list[i].parent, g, l, sn)
+		}
+		return nil
 	}
 	// second observation channel: one File that holds every statement (added when it is created)
 	// and is rendered after every step — what a File remembers between renders must not go stale
@@ -242,22 +304,22 @@ func check(c Case) error {
 				return fmt.Errorf("step %d (%s): the File holding all %d statements renders %d lines", step, what, len(list), len(lines))
 			}
 			for i := range list {
-				g := strings.Join(lines[i], " ")
-				l, sn := strings.Join(live(i), " "), strings.Join(snapshot(i), " ")
-				if g != l && g != sn {
-					return fmt.Errorf("step %d (%s): in a File rendered after every step, statement %d (parent %d) renders %q; want %q or %q", step, what, i, list[i].parent, g, l, sn)
+				if err := judge(step, what, "in a File rendered after every step,", i, strings.Join(lines[i], " "), lines); err != nil {
+					return err
 				}
 			}
 		}
+		cur := make([][]string, len(list))
 		for i, x := range list {
 			got, err := render(x.s)
 			if err != nil {
 				return fmt.Errorf("step %d (%s): statement %d: render error %v", step, what, i, err)
 			}
-			g := strings.Join(got, " ")
-			l, s := strings.Join(live(i), " "), strings.Join(snapshot(i), " ")
-			if g != l && g != s {
-				return fmt.Errorf("step %d (%s): statement %d (parent %d) renders %q; want %q (clone is a view of its original) or %q (clone is a snapshot)", step, what, i, x.parent, g, l, s)
+			cur[i] = got
+		}
+		for i := range list {
+			if err := judge(step, what, "", i, strings.Join(cur[i], " "), cur); err != nil {
+				return err
 			}
 		}
 		return nil
@@ -275,7 +337,7 @@ func check(c Case) error {
 				return err
 			}
 			cl := list[i].s.Clone()
-			list = append(list, &st{s: cl, parent: i, snap: cur})
+			list = append(list, &st{s: cl, parent: i, snap: snapU(i)})
 			pf.Add(jen.Id("ZZSEP"))
 			pf.Add(cl)
 			got, err := render(cl)
@@ -284,6 +346,40 @@ func check(c Case) error {
 			}
 			if strings.Join(got, " ") != strings.Join(cur, " ") {
 				return fmt.Errorf("step %d: fresh clone of statement %d renders %q, original renders %q", step, i, got, cur)
+			}
+		case "doclone":
+			// Clone of the callback parameter inside Do: it is a clone of the statement Do was called on
+			var cl *jen.Statement
+			var cur, atClone []string
+			var rerr error
+			list[i].s.Do(func(s *jen.Statement) {
+				for k := 0; k < op.N; k++ {
+					list[i].own = append(list[i].own, apply(s, "id", 0)...)
+				}
+				cur, rerr = render(s)
+				atClone = snapU(i)
+				cl = s.Clone()
+				for k := 0; k < op.N; k++ {
+					list[i].own = append(list[i].own, apply(s, "dot", 0)...)
+				}
+			})
+			if rerr != nil {
+				return rerr
+			}
+			_ = cur
+			list = append(list, &st{s: cl, parent: i, snap: atClone})
+			pf.Add(jen.Id("ZZSEP"))
+			pf.Add(cl)
+		case "addstmt":
+			j := op.Arg % len(list)
+			seen := map[int]bool{}
+			deps(j, seen)
+			if seen[i] {
+				// statement j shows statement i: adding it to i would make i contain itself
+				list[i].own = append(list[i].own, apply(list[i].s, "id", 0)...)
+			} else {
+				list[i].s.Op("+").Add(list[j].s)
+				list[i].own = append(list[i].own, "+", fmt.Sprintf("\x00%d", j))
 			}
 		case "append":
 			list[i].own = append(list[i].own, apply(list[i].s, op.Via, op.N)...)
@@ -305,7 +401,7 @@ func classify(r *hx.Run, c Case) {
 	lastSide := map[int]int{}
 	for _, op := range c.Ops {
 		i := op.Target % len(lens)
-		if op.Kind == "clone" {
+		if op.Kind == "clone" || op.Kind == "doclone" {
 			infos = append(infos, info{i, infos[i].depth + 1, lens[i]})
 			lens = append(lens, lens[i])
 			if infos[len(infos)-1].depth > maxDepth {
@@ -342,6 +438,18 @@ func classify(r *hx.Run, c Case) {
 			nontrivial = true
 		}
 	}
+	for _, op := range c.Ops {
+		if op.Kind == "doclone" {
+			r.Class("clone_inside_Do")
+			break
+		}
+	}
+	for _, op := range c.Ops {
+		if op.Kind == "addstmt" {
+			r.Class("statement_added_to_statement")
+			break
+		}
+	}
 	r.Class(fmt.Sprintf("clone_depth_%d", min(maxDepth, 4)))
 	switch {
 	case interleave == 0:
@@ -360,7 +468,7 @@ func classify(r *hx.Run, c Case) {
 func TestC20(t *testing.T) {
 	r := hx.Start(t, "C20")
 	defer r.Finish(t)
-	r.Rule("rapid-generated histories of append/clone operations (appends via Id, Op, Lit, Dot, Call, Index, Qual, Tag, Case+Block, Default+Block, Add with 0..9 items; every statement is rendered on its own through a fresh File and, as a line of one File that holds all statements and is rendered after every step); non-trivial = the history has a clone taken when its original had >= 3 items, followed by appends to both the original and that clone; distinct by the full history")
+	r.Rule("rapid-generated histories of append/clone operations (appends via Id, Op, Lit, Dot, Call, Index, Qual, Tag, Case+Block, Default+Block, Add with 0..9 items, Add of another statement of the history; clones also taken of the callback parameter inside Do, with appends before and after in the callback; every statement is rendered on its own through a fresh File and, as a line of one File that holds all statements and is rendered after every step); non-trivial = the history has a clone taken when its original had >= 3 items, followed by appends to both the original and that clone; distinct by the full history")
 	r.Assume("go/scanner token stream of a NoFormat File render is taken as 'the rendering' of a statement")
 	maxOps := 60
 	if r.Thorough() {
